@@ -10,7 +10,12 @@ idle before the request) x restart delay x caller timeout x level
     C  client level    : ECU(transport, timeout, max_retry).send_raw(22 f1 90); 15 s later the same request again
 Compared with the model: result / outcome class and payload, virtual completion times, close state, reconnect result,
 number of connections accepted, every request transmission (connection index, time).  Independently of the model the
-property's clauses are evaluated on the implementation's observations (`spec_check`)."""
+property's clauses are evaluated on the implementation's observations (`spec_check`).
+
+Whole executions (`run_sys`, lib/c08sys.py, lib/lossys.py, Model/LossSys.lean): generated event lists - client calls
+(request / close / reconnect / transport read), peer events (deliver any bytes, cut, listener up / down, serve, routing
+activation answered / lost), advance - for max_retry 0..3 run against the real UDSClient over the real transports with a
+scripted peer and against the model; every call's outcome, end time, connection count and the wire log are compared."""
 from __future__ import annotations
 
 import asyncio
@@ -44,6 +49,17 @@ ASSUMPTIONS = [
     "same connection (timeouts never trigger a reconnect); 'recovers through an automatic reconnect' is therefore stated "
     "for losses that surface as ConnectionError / end-of-stream",
     "one client task uses the transport (C05 covers concurrent users)",
+    "whole executions (Model/LossSys.lean): the event list is one time line; a peer event happens at the time of the "
+    "previous event plus the advances in between; between two events of one instant the client runs until it blocks "
+    "(12 loop iterations are granted); a deadline that falls exactly on the time of a peer event is not compared (the "
+    "model counts such ties, the tie skips them: < 0.5 % of the generated lists)",
+    "connection set-up: a refused TCP connect and an unanswered DoIP routing activation are modelled; a TCP connect that "
+    "hangs (SYN dropped) is bounded by the kernel's connect timeout, not by gallia (reconnect() of the line / HSFZ "
+    "transports passes timeout=None; DoIP bounds it by its 10 s window) - outside the model; TargetURI parsing is C20's",
+    "replies are classified by the driver's `clsS` for requests 22 f1 90: 7f 22 78 pending, 7f 22 21 busy, 7f 22 xx negative, "
+    "62 f1 90 .. positive; the generated peers send only these (plus truncated frames and empty messages)",
+    "a DoIP frame that does not unpack kills the reader task, which closes the connection (modelled); malformed HSFZ "
+    "length fields (a frame that never completes) behave like silence",
 ]
 
 T0 = 100          # ms: the request is issued
@@ -661,7 +677,26 @@ def replay(ctx, case):
 
 
 MANIFEST = {
-    "level_text": ("Lean 4 theorems over an executable model of connection loss on the four stream transports composed with "
+    "level_text": ("WHOLE EXECUTIONS (Model/LossSys.lean, 14 theorems): for every max_retry = n, every state and every event list "
+                   "(client calls request / close / reconnect / transport read; peer events deliver any bytes, cut eof / reset / "
+                   "silence, listener up / down, serve, routing activation answered / lost; advance) every call with a caller "
+                   "timeout t ends within callBudget = sum over the attempts of min(t, ack) + t + ResponsePending budget, plus per "
+                   "retry retry_wait * 2^i + reconnect window (sys_every_call_ends; exact closed form without ResponsePending "
+                   "(n+1)(min(t,ack)+t) + n*window + sum retry_wait*2^i, attained by a silent peer: sys_every_call_ends_exact, "
+                   "callBudget_closed); a returned reply is a completely received message of the connection the last write of the "
+                   "request went out on, every reconnect starts from an empty queue (sys_no_fabrication, "
+                   "sys_no_fabrication_attempt; a stale reply on the SAME connection is returned - shown by example); the request "
+                   "is written exactly once per attempt, timeouts / busy retry on the same connection, a new connection is opened "
+                   "only after a loss that surfaced as ConnectionError / end-of-stream with a retry left (sys_retries_exact, "
+                   "sys_retries_exact_attempt, sys_retries_exact_conn); with n >= 1, the peer accepting and answering, the call "
+                   "returns the peer's reply through exactly one new connection (sys_recovers; n = 0 witness); close is idempotent "
+                   "and close; request recovers (sys_close_idempotent, sys_close_harmless); a read on an ended / closed connection "
+                   "returns at once for any backlog (sys_backlog_read_ends). Tied by running generated event lists (sensible: a "
+                   "request, a loss, a recovery, set-up disturbances, close / reconnect, duplicate acks; adversarial; backlog "
+                   "0..200 frames before eof / reset) against the real UDSClient over the real TCPLines / UnixLines / DoIP / HSFZ "
+                   "transports with a scripted in-memory peer under virtual time: outcome, end time and connection count of every "
+                   "call, every request on the wire (connection, time, bytes), refused connection attempts. ONE EXCHANGE: "
+                   "Lean 4 theorems over an executable model of connection loss on the four stream transports composed with "
                    "the UDS client's retry / reconnect loop: for an arbitrary delivered prefix (every cut point of every "
                    "stream) and cut kind (eof / reset / silence) the pending request_unsafe ends with data, timeout, "
                    "connection error or end-of-stream no later than caller timeout + ack time (loss_bounded); without caller "
@@ -675,11 +710,12 @@ MANIFEST = {
                    "DoIP / HSFZ transports, BaseTransport.reconnect and ECU over in-memory peers with a listener that is "
                    "down for a virtual delay: every byte offset of two reply streams per transport x 3 cut kinds x 3 event "
                    "times x restart {0, 0.3, 3, 12 s} x caller timeout {None, 0.5, 5 s} x {transport level, client level}."),
-    "level_note": ("Partial: real socket errors (EPIPE vs ECONNRESET timing, half-open connections, kernel buffering) are "
+    "level_note": ("Whole executions: one client task; a hanging TCP connect is bounded by the kernel only; deadline/event ties are "
+                   "skipped; replies restricted to the 22 f1 90 vocabulary. Partial: real socket errors (EPIPE vs ECONNRESET timing, half-open connections, kernel buffering) are "
                    "represented by the three cut kinds; one client task; silence on a line transport never triggers a "
                    "reconnect (indistinguishable from a slow peer) - recovery is stated for losses that surface as "
                    "ConnectionError / end-of-stream. Trusted: Lean kernel (propext, Quot.sound, Classical.choice), asyncio "
                    "StreamReader / Queue / wait_for contracts, the in-memory peers and the virtual-time loop."),
-    "technique": "Lean 4 proof (case analysis over the loss machine, induction over the client loop, C19/C06/C07 framing lemmas) + differential correspondence under virtual time with exhaustive cut-point enumeration",
+    "technique": "Lean 4 proof (case analysis over the loss machine, induction over the client loop and over event lists, time-budget potential, C19/C06/C07 framing lemmas) + differential correspondence under virtual time with exhaustive cut-point enumeration and generated whole executions (sensible + adversarial + backlog)",
     "design_ref": "DESIGN.md section 7, C08",
 }
